@@ -85,6 +85,21 @@ where
     }
 }
 
+impl<F: Future> Drop for JoinAll<F> {
+    fn drop(&mut self) {
+        // Outputs written so far would otherwise leak when the combinator is dropped before it
+        // completes: `MaybeUninit` never drops its content.
+        for (i, slot) in self.output.iter_mut().enumerate() {
+            if self.queue.tasks.get(i).is_none() {
+                // SAFETY: the queue was created full and a slot is only vacated when its future
+                // finished, at which point its output was written to `output[i]`. Once the
+                // outputs have been handed out `output` is empty, so nothing is dropped twice.
+                unsafe { slot.assume_init_drop() };
+            }
+        }
+    }
+}
+
 impl<F: Future> Future for JoinAll<F> {
     type Output = Vec<F::Output>;
 
